@@ -234,7 +234,7 @@ fn gen_flags(rng: &mut Rng) -> Flags {
 }
 
 fn glob_matches(pat: &str, rel: &str) -> bool {
-    globset::Glob::new(pat).map(|g| g.compile_matcher().is_match(rel)).unwrap_or(false)
+    crate::globfact::is_match(pat, rel)
 }
 
 /// the documented meaning of the three ignore-file patterns the generator uses
@@ -637,5 +637,6 @@ pub fn run(tier: Tier, seed: u64, out: &str) {
         }
     }
     sink.extra.insert("trivial_tag_prefixes".into(), serde_json::json!([]));
+    crate::globfact::flush(&mut sink);
     sink.finish(out);
 }
